@@ -231,4 +231,42 @@ theorem insertBaselineAdminNetworkPolicy_eq (e : Engine) (b : BANP) :
   cases h1 : e.exposure <;> cases h2 : e.banp.isSome <;> cases h3 : (b.name != "default") <;>
     simp [h1, h2, h3, bind, Except.bind, pure, Except.pure, throw, throwThe, MonadExceptOf.throw] <;> rfl
 
+-- ------------------------------------------------------------------------------------------
+-- NetworkPolicy layer and the pair filter of the report
+
+/-- `policyAffectsDirection`: listed policyTypes decide; without them ingress always, egress iff there are egress rules -/
+theorem policyAffectsDirection_eq (np : NetPol) (d : Dir) :
+    Gen.Procs.policyAffectsDirection np.types d np.egress.length = .ok (np.affects d) := by
+  unfold Gen.Procs.policyAffectsDirection NetPol.affects
+  cases ht : np.types with
+  | nil =>
+    cases d <;> cases he : np.egress <;> simp [pure, Except.pure]
+  | cons t ts =>
+    by_cases h : d ∈ (t :: ts)
+    · have h2 : d = t ∨ d ∈ ts := by simpa using h
+      simp [h2, pure, Except.pure]
+    · have h2 : ¬ (d = t ∨ d ∈ ts) := by simpa using h
+      have h3 : ¬ d = t ∧ ¬ d ∈ ts := by
+        constructor
+        · exact fun x => h2 (Or.inl x)
+        · exact fun x => h2 (Or.inr x)
+      simp [h3, h2, pure, Except.pure]
+
+/-- `doesRulePortContain` (the protocol strings compared by `EqualFold` are the parsed protocols of the model) -/
+theorem doesRulePortContain_eq (rulePr : Proto) (otherPr : Option Proto) (s e port : Int) :
+    Gen.Procs.doesRulePortContain (some rulePr == otherPr) s e port = .ok (NetPol.rulePortContains rulePr otherPr s e port) := by
+  unfold Gen.Procs.doesRulePortContain NetPol.rulePortContains
+  cases h1 : (some rulePr == otherPr) <;> cases h2 : NetPol.isEmptyPortRange s e <;>
+    by_cases h3 : port ≥ s <;> by_cases h4 : port ≤ e <;> simp [h1, h2, h3, h4, pure, Except.pure, bne]
+
+/-- `includePairOfWorkloads` without exposure analysis: the three skip tests of the model's peers × peers loop -/
+theorem includePairOfWorkloads_eq (focus : String) (s d : Engine.LPeer) :
+    Gen.Procs.includePairOfWorkloads s.isIP d.isIP s.str d.str false true focus (Engine.isFocus focus s) false (Engine.isFocus focus d) false =
+      .ok (!(s.isIP && d.isIP) && !(s.str == d.str) && (Engine.isFocus focus s || Engine.isFocus focus d)) := by
+  unfold Gen.Procs.includePairOfWorkloads
+  by_cases hf : focus = ""
+  · subst hf
+    cases h1 : (s.isIP && d.isIP) <;> cases h2 : (s.str == d.str) <;> simp [h1, h2, pure, Except.pure, Engine.isFocus]
+  · cases h1 : (s.isIP && d.isIP) <;> cases h2 : (s.str == d.str) <;> simp [h1, h2, hf, pure, Except.pure]
+
 end Netpol.Tie.Procs
